@@ -810,10 +810,13 @@ impl Checker<'_> {
                             let mut j = i;
                             let mut is_end = false;
                             while j < w.len() && model::is_sys(&w[j].key) {
-                                if !w[j].del && w[j].key.starts_with(&format!("$SYS/clients/{cid}/")) && is_registration_key(&w[j].key) {
-                                    // the client itself still writes its registrations: what came
-                                    // before is bookkeeping of its requests (an unsubscribe), not
-                                    // the end of its session
+                                if !w[j].del && is_registration_key(&w[j].key) {
+                                    // a registration being written - by this client (so its
+                                    // session has not ended: what came before is bookkeeping of an
+                                    // unsubscribe) or by another one (a request of its own,
+                                    // interleaved with the bookkeeping of a forwarder that
+                                    // unsubscribes after its connection failed): either way the
+                                    // end of the session proper has not begun yet
                                     break;
                                 }
                                 if w[j].del
